@@ -1,10 +1,44 @@
 import Rtcm.Model.Message
 import Rtcm.Gen.Messages
+import Rtcm.Proofs.CodecMsgX
+import Rtcm.Proofs.BiasCodec
+import Rtcm.Proofs.WFTable
 /-!
-# C01  Encode/decode normal form (theorems under construction; see DESIGN.md §6 C01 for the staging)
+# C01  Encode/decode normal form: what the encoder writes, the decoder reads back
+
+"For every message value the encoder accepts, of every supported message type, the produced frame decodes
+to a message of the same type (never to the corrupt, empty or unsupported outcomes), and re-encoding that
+decoded message reproduces the frame byte for byte provided the input had no duplicate satellite/signal
+keys and no unrecognised signal identifiers in its bias lists (otherwise the twice-decoded messages are
+still equal). A message obtained by decoding any frame is, whenever the encoder accepts it, a fixed point:
+decoding its encoding returns an equal message, up to the order of satellite groups in the 1059/1065
+code-bias lists."
+
+Subject: `Message.Builder.build` (`MessageBuilder::build_message`), `frameNew` (`MessageFrame::new`),
+`Message.decodeFrame` (`Message::from_message_frame`) over the regenerated table `Gen.messageTable`
+(108 message types) and `Gen.sigTable_glo`; every theorem holds for both build profiles (`cfg`).
+
+Vocabulary
+* `TokOK toks` (Proofs/CodecLaw.lean): every byte-string token consists of bytes `< 256` — the token
+  stream denotes a Rust value (`Df88591String` / `ArrayString` hold `u8`s).
+* `Clean n toks`: the clean-input predicate.  `True` for every type except the three bias-list messages;
+  for 1059/1065: every entry of the bias list carries a signal of the message's table (`CleanBias`);
+  for 1230: no signal listed twice (`Clean1230`).  The bias list is what remains of `toks` after the
+  header fields (`CleanDfs` threads `Interp.takeDf` over them).
+  MSM messages need no such predicate: duplicate satellite / cell keys and unrecognised signals are
+  rejected by the encoder (C10 `masks_ok_iff_pre`).
+* `Regroup n toks toks'`: `toks' = toks`, except for 1059/1065 where the bias entries of `toks'` are those
+  of `toks` regrouped by ascending satellite, original order inside each satellite (`C16.grouped p id`).
+* `after cfg hist`: the builder after any history `hist` of earlier builds (C12).
+
+Status: all four parts are the FULL statements, for all 108 message types:
+(1) `build_decodes_same_type`, (2) `rebuild_reproduces`, (3) `twice_decoded_equal`,
+(4) `decoded_is_fixpoint` (+ `regroup_spec`).  The only standing hypothesis on the input value is
+`TokOK toks` in (1)–(3) (a typing fact about the positional token encoding of a Rust value).
 -/
 namespace Rtcm.C01
-open Rtcm.Message Rtcm.Schema
+open Rtcm.Message Rtcm.Schema Rtcm.Interp Rtcm.CodecLaw Rtcm.DecLocal Rtcm.CodecMsg Rtcm.FragLaw
+open Rtcm.SpecialRows Rtcm.CodecMsgX Rtcm.BiasCodec
 
 /-- a successfully built frame has the message's own number as its table row -/
 theorem build_ok_has_row (cfg : Cfg) (tbl : List MsgRow) (glo : SigTable) (b : Builder) (m : Msg) (fr : List Nat)
@@ -17,5 +51,586 @@ theorem build_ok_has_row (cfg : Cfg) (tbl : List MsgRow) (glo : SigTable) (b : B
     cases hr : findRow tbl n with
     | none => simp [Builder.build, number, hr] at h
     | some row => exact ⟨n, toks, row, rfl, hr⟩
+
+/-! ## Static facts about the generated table -/
+
+theorem countsFit_of_mem {row : MsgRow} (h : row ∈ Gen.messageTable) : Size.countsFit row.frag = true :=
+  List.all_eq_true.mp C15.count_fields_wide_enough row h
+
+theorem countFieldsPlain_of_mem {row : MsgRow} (h : row ∈ Gen.messageTable) :
+    C15.countFieldsPlain row.frag = true :=
+  List.all_eq_true.mp C15.count_fields_plain row h
+
+theorem number_lt_of_findRow {n : Nat} {row : MsgRow} (h : findRow Gen.messageTable n = some row) :
+    n < 4096 := by
+  have hmem : row ∈ Gen.messageTable := List.mem_of_find?_eq_some h
+  have hnum : (row.number == n) = true := by
+    unfold findRow at h
+    have := List.find?_some h
+    exact this
+  have hlt := List.all_eq_true.mp C09.gen_numbers_lt row hmem
+  simp only [decide_eq_true_eq] at hlt
+  have : row.number = n := by simpa using hnum
+  omega
+
+/-! ## The law of every row -/
+
+/-- the layout of a `lawKind` row obeys the codec law and its decoder is local -/
+theorem law_row (cfg : Cfg) {row : MsgRow} (hmem : row ∈ Gen.messageTable)
+    (hs : lawKind row.frag = true) :
+    Law (encFrag cfg Gen.sigTable_glo row.frag) (decFrag cfg row.frag) ∧ Local (decFrag cfg row.frag) :=
+  ⟨encFrag_law cfg Gen.sigTable_glo row.frag (WF.wfFrag_of_mem hmem) (countsFit_of_mem hmem)
+      (countFieldsPlain_of_mem hmem) hs,
+    decFrag_local cfg row.frag (WF.wfFrag_of_mem hmem) hs⟩
+
+/-- the rows whose layout is not `lawKind`: the 1029 text message and the three bias-list messages;
+the other 104 of the 108 rows (data fields, strings, lists, all 49 MSM messages) are `lawKind` -/
+theorem not_lawKind_numbers :
+    (Gen.messageTable.filter fun r => !lawKind r.frag).map (·.number) = [1029, 1059, 1065, 1230] := by
+  decide +kernel
+
+/-! ### the four rows with side conditions: header fields, then one special fragment -/
+
+def hdr1029 : List (String × DfSpec) :=
+  [("reference_station_id", Gen.df_df003), ("modified_julian_day_number", Gen.df_df051),
+   ("seconds_of_day_s", Gen.df_df052)]
+def hdr1059 : List (String × DfSpec) :=
+  [("gps_epoch_time_s", Gen.df_df385), ("ssr_update_interval_index", Gen.df_df_u4),
+   ("multiple_message_flag", Gen.df_df_flag), ("iod_ssr", Gen.df_df_u4), ("ssr_provider_id", Gen.df_df_u16),
+   ("ssr_solution_id", Gen.df_df_u4)]
+def hdr1065 : List (String × DfSpec) :=
+  [("glo_epoch_time_s", Gen.df_df_u17), ("ssr_update_interval_index", Gen.df_df_u4),
+   ("multiple_message_flag", Gen.df_df_flag), ("iod_ssr", Gen.df_df_u4), ("ssr_provider_id", Gen.df_df_u16),
+   ("ssr_solution_id", Gen.df_df_u4)]
+def hdr1230 : List (String × DfSpec) :=
+  [("reference_station_id", Gen.df_df003), ("glo_code_phase_bias_ind", Gen.df_df421)]
+
+/-- the parameter sets of the two code-bias messages -/
+abbrev p1059 : Bias.Params := params1059 390 Gen.biasTable_df_msg1059_biases
+abbrev p1065 : Bias.Params := params1065 390 Gen.biasTable_df_msg1065_biases
+
+theorem frag_1029_shape : Gen.frag_msg1029 = .seq (dfsThen hdr1029 "text_str" .text1029) := rfl
+theorem frag_1059_shape : Gen.frag_msg1059 =
+    .seq (dfsThen hdr1059 "biases" (.bias1059 390 Gen.biasTable_df_msg1059_biases)) := rfl
+theorem frag_1065_shape : Gen.frag_msg1065 =
+    .seq (dfsThen hdr1065 "biases" (.bias1065 390 Gen.biasTable_df_msg1065_biases)) := rfl
+theorem frag_1230_shape : Gen.frag_msg1230 = .seq (dfsThen hdr1230 "glo_code_phase_biases" .bias1230) := rfl
+
+theorem row_1029 : findRow Gen.messageTable 1029 =
+    some ⟨"msg1029", "Msg1029", "msg1029", 1029, Gen.frag_msg1029⟩ := by rfl
+theorem row_1059 : findRow Gen.messageTable 1059 =
+    some ⟨"msg1059", "Msg1059", "msg1059", 1059, Gen.frag_msg1059⟩ := by rfl
+theorem row_1065 : findRow Gen.messageTable 1065 =
+    some ⟨"msg1065", "Msg1065", "msg1065", 1065, Gen.frag_msg1065⟩ := by rfl
+theorem row_1230 : findRow Gen.messageTable 1230 =
+    some ⟨"msg1230", "Msg1230", "msg1230", 1230, Gen.frag_msg1230⟩ := by rfl
+
+/-- the clean-input predicate of message type `n` -/
+def Clean (n : Nat) (toks : List Tok) : Prop :=
+  if n = 1059 then CleanDfs hdr1059 (CleanBias p1059) toks
+  else if n = 1065 then CleanDfs hdr1065 (CleanBias p1065) toks
+  else if n = 1230 then CleanDfs hdr1230 Clean1230 toks
+  else True
+
+/-- how a decoded message comes back after encode-then-decode -/
+def Regroup (n : Nat) (toks toks' : List Tok) : Prop :=
+  if n = 1059 then RelDfs (RelBias p1059) toks toks'
+  else if n = 1065 then RelDfs (RelBias p1065) toks toks'
+  else toks' = toks
+
+/-- message 1029: the text field starts at bit 12 + 12 + 16 + 17 = 57 of the payload, its bytes at bit 72 -/
+theorem law_1029 (cfg : Cfg) :
+    LawX (encFrag cfg Gen.sigTable_glo Gen.frag_msg1029) (decFrag cfg Gen.frag_msg1029) (· = 12)
+      (fun _ => True) (fun a b => b = a) ∧ Local (decFrag cfg Gen.frag_msg1029) := by
+  have hw : WF.wfSpecs hdr1029 = true := by decide +kernel
+  rw [frag_1029_shape]
+  constructor
+  · refine (lawX_seq (law_dfsThen cfg Gen.sigTable_glo "text_str" .text1029 _ _ _
+      (text_law cfg Gen.sigTable_glo) hdr1029 hw)).mono ?_ ?_ ?_
+    · intro o ho
+      subst ho
+      decide
+    · intro ts _
+      exact cleanDfs_true hdr1029 ts
+    · intro a b h
+      exact relDfs_eq h
+  · exact local_seq_frag (local_dfsThen cfg "text_str" .text1029 (text_frag_local cfg) hdr1029 hw)
+
+theorem law_1059 (cfg : Cfg) :
+    LawX (encFrag cfg Gen.sigTable_glo Gen.frag_msg1059) (decFrag cfg Gen.frag_msg1059) (· = 12)
+      (CleanDfs hdr1059 (CleanBias p1059)) (RelDfs (RelBias p1059)) ∧
+    Local (decFrag cfg Gen.frag_msg1059) := by
+  have hw : WF.wfSpecs hdr1059 = true := by decide +kernel
+  have hp := C16.params_ok_1059 390
+  rw [frag_1059_shape]
+  constructor
+  · refine (lawX_seq (law_dfsThen cfg Gen.sigTable_glo "biases" _ _ _ _
+      ((bias_law cfg p1059 hp).congr (frag1059_E cfg _ 390 _) (frag1059_D cfg 390 _)) hdr1059 hw)).mono
+      (fun _ _ => trivial) (fun _ h => h) (fun _ _ h => h)
+  · exact local_seq_frag (local_dfsThen cfg "biases" _
+      ((biasD_local cfg p1059 hp.satBits1 hp.satBits8).congr (frag1059_D cfg 390 _)) hdr1059 hw)
+
+theorem law_1065 (cfg : Cfg) :
+    LawX (encFrag cfg Gen.sigTable_glo Gen.frag_msg1065) (decFrag cfg Gen.frag_msg1065) (· = 12)
+      (CleanDfs hdr1065 (CleanBias p1065)) (RelDfs (RelBias p1065)) ∧
+    Local (decFrag cfg Gen.frag_msg1065) := by
+  have hw : WF.wfSpecs hdr1065 = true := by decide +kernel
+  have hp := C16.params_ok_1065 390
+  rw [frag_1065_shape]
+  constructor
+  · refine (lawX_seq (law_dfsThen cfg Gen.sigTable_glo "biases" _ _ _ _
+      ((bias_law cfg p1065 hp).congr (frag1065_E cfg _ 390 _) (frag1065_D cfg 390 _)) hdr1065 hw)).mono
+      (fun _ _ => trivial) (fun _ h => h) (fun _ _ h => h)
+  · exact local_seq_frag (local_dfsThen cfg "biases" _
+      ((biasD_local cfg p1065 hp.satBits1 hp.satBits8).congr (frag1065_D cfg 390 _)) hdr1065 hw)
+
+theorem law_1230 (cfg : Cfg) :
+    LawX (encFrag cfg Gen.sigTable_glo Gen.frag_msg1230) (decFrag cfg Gen.frag_msg1230) (· = 12)
+      (CleanDfs hdr1230 Clean1230) (fun a b => b = a) ∧
+    Local (decFrag cfg Gen.frag_msg1230) := by
+  have hw : WF.wfSpecs hdr1230 = true := by decide +kernel
+  rw [frag_1230_shape]
+  constructor
+  · refine (lawX_seq (law_dfsThen cfg Gen.sigTable_glo "glo_code_phase_biases" .bias1230 _ _ _
+      (bias1230_law cfg Gen.sigTable_glo C16.glo1230_ok) hdr1230 hw)).mono
+      (fun _ _ => trivial) (fun _ h => h) (fun _ _ h => relDfs_eq h)
+  · exact local_seq_frag (local_dfsThen cfg "glo_code_phase_biases" .bias1230 (bias1230_local cfg) hdr1230 hw)
+
+/-- the three bias-list rows without any hypothesis on the tokens: the decoder accepts what the encoder
+wrote; a decoded 1059/1065 bias list is its own regrouping -/
+theorem lawW_1059 (cfg : Cfg) :
+    LawW (encFrag cfg Gen.sigTable_glo Gen.frag_msg1059) (decFrag cfg Gen.frag_msg1059) (· = 12)
+      (QDfs (QBias p1059)) := by
+  have hw : WF.wfSpecs hdr1059 = true := by decide +kernel
+  rw [frag_1059_shape]
+  intro ts c c' rest hg hfit hP h
+  exact lawW_seq (lawW_dfsThen cfg Gen.sigTable_glo "biases" _ _ _
+    ((bias_lawW cfg p1059 (C16.params_ok_1059 390)).congr (frag1059_E cfg _ 390 _) (frag1059_D cfg 390 _))
+    hdr1059 hw) ts c c' rest hg hfit trivial h
+
+theorem lawW_1065 (cfg : Cfg) :
+    LawW (encFrag cfg Gen.sigTable_glo Gen.frag_msg1065) (decFrag cfg Gen.frag_msg1065) (· = 12)
+      (QDfs (QBias p1065)) := by
+  have hw : WF.wfSpecs hdr1065 = true := by decide +kernel
+  rw [frag_1065_shape]
+  intro ts c c' rest hg hfit hP h
+  exact lawW_seq (lawW_dfsThen cfg Gen.sigTable_glo "biases" _ _ _
+    ((bias_lawW cfg p1065 (C16.params_ok_1065 390)).congr (frag1065_E cfg _ 390 _) (frag1065_D cfg 390 _))
+    hdr1065 hw) ts c c' rest hg hfit trivial h
+
+theorem lawW_1230 (cfg : Cfg) :
+    LawW (encFrag cfg Gen.sigTable_glo Gen.frag_msg1230) (decFrag cfg Gen.frag_msg1230) (· = 12)
+      (fun _ => True) := by
+  have hw : WF.wfSpecs hdr1230 = true := by decide +kernel
+  rw [frag_1230_shape]
+  intro ts c c' rest hg hfit hP h
+  obtain ⟨a, nt, c'', d, h1, h2, _⟩ := lawW_seq (lawW_dfsThen cfg Gen.sigTable_glo "glo_code_phase_biases"
+    .bias1230 _ _ (bias1230_lawW cfg Gen.sigTable_glo) hdr1230 hw) ts c c' rest hg hfit trivial h
+  exact ⟨a, nt, c'', d, h1, h2, trivial⟩
+
+/-- a table row is `lawKind`, or one of the four special rows -/
+theorem row_cases (n : Nat) (row : MsgRow) (hrow : findRow Gen.messageTable n = some row) :
+    (lawKind row.frag = true ∧ n ≠ 1059 ∧ n ≠ 1065 ∧ n ≠ 1230) ∨
+    (n = 1029 ∧ row.frag = Gen.frag_msg1029) ∨ (n = 1059 ∧ row.frag = Gen.frag_msg1059) ∨
+    (n = 1065 ∧ row.frag = Gen.frag_msg1065) ∨ (n = 1230 ∧ row.frag = Gen.frag_msg1230) := by
+  have hmem : row ∈ Gen.messageTable := List.mem_of_find?_eq_some hrow
+  have hnum : row.number = n := by
+    have : (row.number == n) = true := by
+      unfold findRow at hrow
+      have := List.find?_some hrow
+      exact this
+    simpa using this
+  by_cases hs : lawKind row.frag = true
+  · left
+    refine ⟨hs, ?_, ?_, ?_⟩
+    · rintro rfl
+      rw [row_1059] at hrow
+      injection hrow with hrow
+      subst hrow
+      revert hs
+      decide +kernel
+    · rintro rfl
+      rw [row_1065] at hrow
+      injection hrow with hrow
+      subst hrow
+      revert hs
+      decide +kernel
+    · rintro rfl
+      rw [row_1230] at hrow
+      injection hrow with hrow
+      subst hrow
+      revert hs
+      decide +kernel
+  · right
+    have hin : row.number ∈ (Gen.messageTable.filter fun r => !lawKind r.frag).map (·.number) :=
+      List.mem_map.mpr ⟨row, List.mem_filter.mpr ⟨hmem, by simpa using hs⟩, rfl⟩
+    rw [not_lawKind_numbers, hnum] at hin
+    simp only [List.mem_cons, List.not_mem_nil, or_false] at hin
+    rcases hin with rfl | rfl | rfl | rfl
+    · rw [row_1029] at hrow; injection hrow with hrow; subst hrow; exact Or.inl ⟨rfl, rfl⟩
+    · rw [row_1059] at hrow; injection hrow with hrow; subst hrow; exact Or.inr (Or.inl ⟨rfl, rfl⟩)
+    · rw [row_1065] at hrow; injection hrow with hrow; subst hrow; exact Or.inr (Or.inr (Or.inl ⟨rfl, rfl⟩))
+    · rw [row_1230] at hrow; injection hrow with hrow; subst hrow; exact Or.inr (Or.inr (Or.inr ⟨rfl, rfl⟩))
+
+/-- THE LAW OF EVERY ROW: started at bit 12 of the payload window, on clean input, with fixed points
+up to `Regroup` -/
+theorem row_lawX (cfg : Cfg) (n : Nat) (row : MsgRow) (hrow : findRow Gen.messageTable n = some row) :
+    LawX (encFrag cfg Gen.sigTable_glo row.frag) (decFrag cfg row.frag) (· = 12) (Clean n) (Regroup n) ∧
+    Local (decFrag cfg row.frag) := by
+  have hmem : row ∈ Gen.messageTable := List.mem_of_find?_eq_some hrow
+  rcases row_cases n row hrow with ⟨hs, h1, h2, h3⟩ | ⟨rfl, hf⟩ | ⟨rfl, hf⟩ | ⟨rfl, hf⟩ | ⟨rfl, hf⟩
+  · obtain ⟨hl, hloc⟩ := law_row cfg hmem hs
+    refine ⟨(LawX.of_law hl).mono (fun _ _ => trivial) (fun _ _ => trivial) ?_, hloc⟩
+    intro a b h
+    unfold Regroup
+    rw [if_neg h1, if_neg h2]
+    exact h.symm
+  · rw [hf]
+    obtain ⟨hl, hloc⟩ := law_1029 cfg
+    exact ⟨hl.mono (fun _ h => h) (fun _ _ => trivial) (fun _ _ h => by unfold Regroup; simpa using h), hloc⟩
+  · rw [hf]
+    obtain ⟨hl, hloc⟩ := law_1059 cfg
+    exact ⟨hl.mono (fun _ h => h) (fun _ h => by unfold Clean at h; simpa using h)
+      (fun _ _ h => by unfold Regroup; simpa using h), hloc⟩
+  · rw [hf]
+    obtain ⟨hl, hloc⟩ := law_1065 cfg
+    exact ⟨hl.mono (fun _ h => h) (fun _ h => by unfold Clean at h; simpa using h)
+      (fun _ _ h => by unfold Regroup; simpa using h), hloc⟩
+  · rw [hf]
+    obtain ⟨hl, hloc⟩ := law_1230 cfg
+    exact ⟨hl.mono (fun _ h => h) (fun _ h => by unfold Clean at h; simpa using h)
+      (fun _ _ h => by unfold Regroup; simpa using h), hloc⟩
+
+/-! ### what a typed decode returns: a Rust value, and clean -/
+
+theorem bias_tokOK (ws : Bool) (es : List Bias.Entry) : TokOK (biasToks ws es) := by
+  intro t ht
+  unfold biasToks at ht
+  rcases List.mem_cons.mp ht with rfl | ht
+  · rfl
+  · rw [List.mem_flatMap] at ht
+    obtain ⟨e, _, he⟩ := ht
+    cases ws
+    · simp at he
+      rcases he with rfl | rfl <;> rfl
+    · simp at he
+      rcases he with rfl | rfl | rfl <;> rfl
+
+theorem decoded_tokOK (cfg : Cfg) (n : Nat) (row : MsgRow) (hrow : findRow Gen.messageTable n = some row)
+    (f0 : Frame) (toks : List Tok) (c' : Cur)
+    (h : decFrag cfg row.frag { data := f0.data.map (·.toNat), off := 12 } = .ok (toks, c')) : TokOK toks := by
+  have hb := bytes_map_toNat f0.data
+  rcases row_cases n row hrow with ⟨hs, _, _, _⟩ | ⟨rfl, hf⟩ | ⟨rfl, hf⟩ | ⟨rfl, hf⟩ | ⟨rfl, hf⟩
+  · exact decFrag_tokOK cfg row.frag hs _ _ _ h
+  · rw [hf, frag_1029_shape, decFrag] at h
+    exact tokOK_dfsThen cfg "text_str" .text1029 (text_tokOK cfg) hdr1029 (by decide +kernel) _ _ _ hb h
+  · rw [hf, frag_1059_shape, decFrag] at h
+    refine tokOK_dfsThen cfg "biases" _ ?_ hdr1059 (by decide +kernel) _ _ _ hb h
+    intro c t c'' _ hd
+    rw [decFrag] at hd
+    split at hd
+    · simp only [Res.ok.injEq, Prod.mk.injEq] at hd; rw [← hd.1]; exact bias_tokOK _ _
+    · cases hd
+    · cases hd
+  · rw [hf, frag_1065_shape, decFrag] at h
+    refine tokOK_dfsThen cfg "biases" _ ?_ hdr1065 (by decide +kernel) _ _ _ hb h
+    intro c t c'' _ hd
+    rw [decFrag] at hd
+    split at hd
+    · simp only [Res.ok.injEq, Prod.mk.injEq] at hd; rw [← hd.1]; exact bias_tokOK _ _
+    · cases hd
+    · cases hd
+  · rw [hf, frag_1230_shape, decFrag] at h
+    refine tokOK_dfsThen cfg "glo_code_phase_biases" _ ?_ hdr1230 (by decide +kernel) _ _ _ hb h
+    intro c t c'' _ hd
+    rw [decFrag] at hd
+    split at hd
+    · simp only [Res.ok.injEq, Prod.mk.injEq] at hd; rw [← hd.1]; exact bias_tokOK _ _
+    · cases hd
+    · cases hd
+
+/-- a decoded message is clean: the decoders only produce recognised signals, each 1230 signal once -/
+theorem decoded_clean (cfg : Cfg) (n : Nat) (row : MsgRow) (hrow : findRow Gen.messageTable n = some row)
+    (c0 : Cur) (toks : List Tok) (c' : Cur)
+    (h : decFrag cfg row.frag c0 = .ok (toks, c')) : Clean n toks := by
+  rcases row_cases n row hrow with ⟨_, h1, h2, h3⟩ | ⟨rfl, hf⟩ | ⟨rfl, hf⟩ | ⟨rfl, hf⟩ | ⟨rfl, hf⟩
+  · unfold Clean; rw [if_neg h1, if_neg h2, if_neg h3]; trivial
+  · unfold Clean; simp
+  · rw [hf, frag_1059_shape, decFrag] at h
+    unfold Clean
+    rw [if_pos rfl]
+    refine cleanDfs_of_decoded cfg "biases" _ _ ?_ hdr1059 _ _ _ h
+    intro c t c'' hd
+    rw [frag1059_D] at hd
+    exact cleanBias_of_decoded hd
+  · rw [hf, frag_1065_shape, decFrag] at h
+    unfold Clean
+    rw [if_neg (by decide), if_pos rfl]
+    refine cleanDfs_of_decoded cfg "biases" _ _ ?_ hdr1065 _ _ _ h
+    intro c t c'' hd
+    rw [frag1065_D] at hd
+    exact cleanBias_of_decoded hd
+  · rw [hf, frag_1230_shape, decFrag] at h
+    unfold Clean
+    rw [if_neg (by decide), if_neg (by decide), if_pos rfl]
+    exact cleanDfs_of_decoded cfg "glo_code_phase_biases" _ _ (fun _ _ _ hd => clean1230_of_decoded hd)
+      hdr1230 _ _ _ h
+
+/-! ## The message-level theorems -/
+
+/-- core statement, fresh builder -/
+theorem law_normal_form (cfg : Cfg) (n : Nat) (toks : List Tok) (fr : List Nat)
+    (hok : TokOK toks) (hcl : Clean n toks)
+    (h : (Builder.new.build cfg Gen.messageTable Gen.sigTable_glo (.typed n toks)).2 = .ok fr) :
+    ∃ f nt, frameNew (fr.map UInt8.ofNat) = .ok f ∧
+      decodeFrame cfg Gen.messageTable f = .ok (.typed n nt) ∧
+      (Builder.new.build cfg Gen.messageTable Gen.sigTable_glo (.typed n nt)).2 = .ok fr := by
+  obtain ⟨_, _, row, hm, hrow⟩ := build_ok_has_row cfg _ _ _ _ fr h
+  injection hm with hn _
+  subst hn
+  obtain ⟨hlaw, hloc⟩ := row_lawX cfg _ row hrow
+  exact normal_form_of_lawX cfg Gen.messageTable (fun _ h => WF.wfFrag_of_mem h) Gen.sigTable_glo _
+    (number_lt_of_findRow hrow) toks fr row hrow hlaw rfl hloc hok hcl h
+
+/-- the builder after any history of builds -/
+abbrev after (cfg : Cfg) (hist : List Msg) : Builder :=
+  hist.foldl (fun b x => (b.build cfg Gen.messageTable Gen.sigTable_glo x).1) Builder.new
+
+/-- `Clean` is no condition for any type but the three bias-list messages -/
+theorem clean_trivial (n : Nat) (toks : List Tok) (h : n ≠ 1059 ∧ n ≠ 1065 ∧ n ≠ 1230) : Clean n toks := by
+  unfold Clean
+  rw [if_neg h.1, if_neg h.2.1, if_neg h.2.2]
+  trivial
+
+/-- what a frame built from ANY accepted message value decodes to (fresh builder): a message of the same
+type; for 1059/1065 its bias list is its own regrouping -/
+theorem built_decodes (cfg : Cfg) (n : Nat) (toks : List Tok) (fr : List Nat) (hok : TokOK toks)
+    (h : (Builder.new.build cfg Gen.messageTable Gen.sigTable_glo (.typed n toks)).2 = .ok fr) :
+    ∃ f nt, frameNew (fr.map UInt8.ofNat) = .ok f ∧
+      decodeFrame cfg Gen.messageTable f = .ok (.typed n nt) ∧
+      (n = 1059 → QDfs (QBias p1059) nt) ∧ (n = 1065 → QDfs (QBias p1065) nt) := by
+  obtain ⟨_, _, row, hm, hrow⟩ := build_ok_has_row cfg _ _ _ _ fr h
+  injection hm with hn _
+  subst hn
+  have hlt := number_lt_of_findRow hrow
+  have htbl : ∀ row ∈ Gen.messageTable, WF.WFFrag row.frag = true := fun _ h => WF.wfFrag_of_mem h
+  obtain ⟨_, hloc⟩ := row_lawX cfg _ row hrow
+  rcases row_cases _ row hrow with ⟨hs, h1, h2, h3⟩ | ⟨rfl, hf⟩ | ⟨rfl, hf⟩ | ⟨rfl, hf⟩ | ⟨rfl, hf⟩
+  · obtain ⟨f, nt, a, b, _⟩ := law_normal_form cfg _ toks fr hok (clean_trivial _ _ ⟨h1, h2, h3⟩) h
+    exact ⟨f, nt, a, b, fun e => absurd e h1, fun e => absurd e h2⟩
+  · obtain ⟨f, nt, a, b, _⟩ := law_normal_form cfg _ toks fr hok (clean_trivial _ _ (by decide)) h
+    exact ⟨f, nt, a, b, fun e => absurd e (by decide), fun e => absurd e (by decide)⟩
+  · have hl := lawW_1059 cfg
+    rw [← hf] at hl
+    obtain ⟨f, nt, a, b, q⟩ := decodes_of_lawW cfg Gen.messageTable htbl Gen.sigTable_glo _ hlt toks fr row
+      hrow hl rfl hloc h
+    exact ⟨f, nt, a, b, fun _ => q, fun e => absurd e (by decide)⟩
+  · have hl := lawW_1065 cfg
+    rw [← hf] at hl
+    obtain ⟨f, nt, a, b, q⟩ := decodes_of_lawW cfg Gen.messageTable htbl Gen.sigTable_glo _ hlt toks fr row
+      hrow hl rfl hloc h
+    exact ⟨f, nt, a, b, fun e => absurd e (by decide), fun _ => q⟩
+  · have hl := lawW_1230 cfg
+    rw [← hf] at hl
+    obtain ⟨f, nt, a, b, _⟩ := decodes_of_lawW cfg Gen.messageTable htbl Gen.sigTable_glo _ hlt toks fr row
+      hrow hl rfl hloc h
+    exact ⟨f, nt, a, b, fun e => absurd e (by decide), fun e => absurd e (by decide)⟩
+
+/-- **C01 (1), FULL.**  For every message type: whatever the builder did before, if it accepts the message
+value `toks` of type `n` (byte strings being bytes: `TokOK`), the frame passes the frame check and
+decodes to a message of the same type — never to `corrupt`, `empty` or `notSupported`.  No clean-input
+hypothesis: a 1059/1065 list with unrecognised signals decodes to the list without them, a 1230 list with
+a repeated signal to one entry per signal. -/
+theorem build_decodes_same_type (cfg : Cfg) (hist : List Msg) (n : Nat) (toks : List Tok)
+    (fr : List Nat) (hok : TokOK toks)
+    (h : ((after cfg hist).build cfg Gen.messageTable Gen.sigTable_glo (.typed n toks)).2 = .ok fr) :
+    ∃ f nt, frameNew (fr.map UInt8.ofNat) = .ok f ∧
+      decodeFrame cfg Gen.messageTable f = .ok (.typed n nt) := by
+  rw [C12.build_history_independent] at h
+  obtain ⟨f, nt, h1, h2, _⟩ := built_decodes cfg n toks fr hok h
+  exact ⟨f, nt, h1, h2⟩
+
+/-- **C01 (2), FULL.**  For every message type: re-encoding the decoded message reproduces the frame byte
+for byte, from any builder state, provided the input was clean (`Clean n toks`: recognised signals in
+the 1059/1065 lists, no repeated signal in the 1230 list; no condition for any other type). -/
+theorem rebuild_reproduces (cfg : Cfg) (hist hist' : List Msg) (n : Nat) (toks nt : List Tok)
+    (fr : List Nat) (f : Frame) (hok : TokOK toks) (hcl : Clean n toks)
+    (h : ((after cfg hist).build cfg Gen.messageTable Gen.sigTable_glo (.typed n toks)).2 = .ok fr)
+    (hf : frameNew (fr.map UInt8.ofNat) = .ok f)
+    (hd : decodeFrame cfg Gen.messageTable f = .ok (.typed n nt)) :
+    ((after cfg hist').build cfg Gen.messageTable Gen.sigTable_glo (.typed n nt)).2 = .ok fr := by
+  rw [C12.build_history_independent] at h ⊢
+  obtain ⟨f', nt', h1, h2, h3⟩ := law_normal_form cfg n toks fr hok hcl h
+  rw [hf] at h1
+  injection h1 with h1
+  subst h1
+  rw [hd] at h2
+  injection h2 with h2
+  injection h2 with _ h2
+  subst h2
+  exact h3
+
+/-- **C01 (4), FULL.**  For every message type: a message obtained by decoding ANY frame (built by this
+encoder or not, canonical or not) is, whenever the encoder accepts it, a fixed point: decoding its
+encoding returns `toks'` with `Regroup n toks toks'`, i.e. the same message, except that the 1059/1065
+bias entries come back regrouped by ascending satellite (`regroup_spec`). -/
+theorem decoded_is_fixpoint (cfg : Cfg) (hist : List Msg) (f0 : Frame) (n : Nat) (toks : List Tok)
+    (fr : List Nat)
+    (hd0 : decodeFrame cfg Gen.messageTable f0 = .ok (.typed n toks))
+    (h : ((after cfg hist).build cfg Gen.messageTable Gen.sigTable_glo (.typed n toks)).2 = .ok fr) :
+    ∃ f toks', frameNew (fr.map UInt8.ofNat) = .ok f ∧
+      decodeFrame cfg Gen.messageTable f = .ok (.typed n toks') ∧ Regroup n toks toks' := by
+  rw [C12.build_history_independent] at h
+  obtain ⟨row, c', hrow, hdec⟩ := decodeFrame_typed hd0
+  obtain ⟨hlaw, hloc⟩ := row_lawX cfg n row hrow
+  exact fixpoint_of_lawX cfg Gen.messageTable (fun _ h => WF.wfFrag_of_mem h)
+    Gen.sigTable_glo n (number_lt_of_findRow hrow) toks fr row hrow hlaw rfl hloc
+    (decoded_tokOK cfg n row hrow f0 toks c' hdec) (decoded_clean cfg n row hrow _ toks c' hdec)
+    ⟨_, _, hdec⟩ h
+
+/-- `Regroup` spelled out: equality for every type but 1059/1065; for those, a common header followed by
+the bias list, which comes back as `C16.grouped p id es` (satellites ascending, original order inside each
+satellite — a permutation of `es`, `C16.grouped_perm`) -/
+theorem regroup_spec (n : Nat) (toks toks' : List Tok) (h : Regroup n toks toks') :
+    (n ≠ 1059 ∧ n ≠ 1065 ∧ toks' = toks) ∨
+    (n = 1059 ∧ ∃ hdr es, toks = hdr ++ biasToks true es ∧
+      toks' = hdr ++ biasToks true (C16.grouped p1059 id es)) ∨
+    (n = 1065 ∧ ∃ hdr es, toks = hdr ++ biasToks true es ∧
+      toks' = hdr ++ biasToks true (C16.grouped p1065 id es)) := by
+  unfold Regroup at h
+  by_cases h1 : n = 1059
+  · rw [if_pos h1] at h
+    obtain ⟨hdr, tl, tl', _, rfl, rfl, es, rfl, rfl⟩ := h
+    exact Or.inr (Or.inl ⟨h1, hdr, es, rfl, rfl⟩)
+  · rw [if_neg h1] at h
+    by_cases h2 : n = 1065
+    · rw [if_pos h2] at h
+      obtain ⟨hdr, tl, tl', _, rfl, rfl, es, rfl, rfl⟩ := h
+      exact Or.inr (Or.inr ⟨h2, hdr, es, rfl, rfl⟩)
+    · rw [if_neg h2] at h
+      exact Or.inl ⟨h1, h2, h⟩
+
+/-- **C01 (3), FULL.**  For every message type, clean input or not: decoding the re-encoded message gives
+the same message again.  (By (4), since the first decode `nt` is a decoded message; for 1059/1065
+additionally because a frame written by the encoder decodes to a bias list that is already grouped by
+ascending satellite, `built_decodes`.) -/
+theorem twice_decoded_equal (cfg : Cfg) (hist hist' : List Msg) (n : Nat) (toks nt : List Tok)
+    (fr fr' : List Nat) (f f' : Frame) (hok : TokOK toks)
+    (h : ((after cfg hist).build cfg Gen.messageTable Gen.sigTable_glo (.typed n toks)).2 = .ok fr)
+    (hf : frameNew (fr.map UInt8.ofNat) = .ok f)
+    (hd : decodeFrame cfg Gen.messageTable f = .ok (.typed n nt))
+    (h' : ((after cfg hist').build cfg Gen.messageTable Gen.sigTable_glo (.typed n nt)).2 = .ok fr')
+    (hf' : frameNew (fr'.map UInt8.ofNat) = .ok f') :
+    decodeFrame cfg Gen.messageTable f' = .ok (.typed n nt) := by
+  obtain ⟨f'', toks', hf'', hd'', hR⟩ := decoded_is_fixpoint cfg hist' f n nt fr' hd h'
+  rw [hf'] at hf''
+  injection hf'' with hf''
+  subst hf''
+  rw [C12.build_history_independent] at h
+  obtain ⟨f1, nt1, hf1, hd1, q1, q2⟩ := built_decodes cfg n toks fr hok h
+  rw [hf] at hf1
+  injection hf1 with hf1
+  subst hf1
+  rw [hd] at hd1
+  injection hd1 with hd1
+  injection hd1 with _ hd1
+  subst hd1
+  have : toks' = nt := by
+    unfold Regroup at hR
+    by_cases h1 : n = 1059
+    · rw [if_pos h1] at hR
+      exact regroup_fixed p1059 (q1 h1) hR
+    · rw [if_neg h1] at hR
+      by_cases h2 : n = 1065
+      · rw [if_pos h2] at hR
+        exact regroup_fixed p1065 (q2 h2) hR
+      · rw [if_neg h2] at hR
+        exact hR
+  rw [this] at hd''
+  exact hd''
+
+/-! ### The hypotheses are satisfiable -/
+
+/-- a 1005 message value: station 2003, ECEF (1.0, 0.0, -1.0) m -/
+def ex1005 : List Tok :=
+  [.int 2003, .int 0, .int 1, .int 1, .int 0, .int 0, .flt 0x3FF0000000000000, .int 0, .int 0, .flt 0,
+   .int 1, .flt 0xBFF0000000000000]
+
+/-- a 1001 message value with one satellite, pseudorange 1.0 m, phase-range difference absent -/
+def ex1001 : List Tok :=
+  [.int 5, .int 1000, .int 0, .count 1, .int 0, .int 3,
+   .int 7, .int 0, .present, .flt 0x3FF0000000000000, .absent, .int 9]
+
+example : ∀ chk : Bool,
+    (Builder.new.build ⟨chk⟩ Gen.messageTable Gen.sigTable_glo (.typed 1005 ex1005)).2.isOk = true := by
+  decide +kernel
+
+example : ∀ chk : Bool,
+    (Builder.new.build ⟨chk⟩ Gen.messageTable Gen.sigTable_glo (.typed 1001 ex1001)).2.isOk = true := by
+  decide +kernel
+
+example : TokOK ex1005 ∧ TokOK ex1001 := by
+  constructor <;> (intro t ht; revert t ht; decide)
+
+example : Clean 1005 ex1005 := clean_trivial _ _ (by decide)
+example : Clean 1001 ex1001 := clean_trivial _ _ (by decide)
+
+/-- a 1071 (GPS MSM1) message value: satellites 5 and 2 listed out of order, cells (5,1C) (2,1C) (5,2W) -/
+def ex1071 : List Tok :=
+  [.int 7, .int 1000, .int 0, .absent, .int 0, .int 0, .int 0, .int 0, .int 0,
+   .count 2, .int 5, .flt 0x3FE0000000000000, .int 2, .flt 0,
+   .count 3, .int 5, .sig 1 67, .absent, .int 2, .sig 1 67, .present, .flt 0, .int 5, .sig 2 87, .absent]
+
+example : ∀ chk : Bool,
+    (Builder.new.build ⟨chk⟩ Gen.messageTable Gen.sigTable_glo (.typed 1071 ex1071)).2.isOk = true := by
+  decide +kernel
+example : Clean 1071 ex1071 := clean_trivial _ _ (by decide)
+
+/-- a 1029 message value: station 5, MJD 60000, 1000 s, text "Hé" (3 bytes, 2 characters) -/
+def ex1029 : List Tok := [.int 5, .int 60000, .int 1000, .bytes [0x48, 0xC3, 0xA9]]
+
+example : ∀ chk : Bool,
+    (Builder.new.build ⟨chk⟩ Gen.messageTable Gen.sigTable_glo (.typed 1029 ex1029)).2.isOk = true := by
+  decide +kernel
+example : TokOK ex1029 := by intro t ht; revert t ht; decide
+example : Clean 1029 ex1029 := clean_trivial _ _ (by decide)
+
+/-- the bias entries of the 1059 example: satellites 5 and 2 out of order, recognised GPS signals 1C, 2W, 2C -/
+def exBias1059 : List Bias.Entry :=
+  [⟨5, 1, 67, 0x3FC00000⟩, ⟨2, 2, 87, 0xBFC00000⟩, ⟨5, 2, 67, 0x3F000000⟩]
+
+/-- a 1059 message value (header, then the bias list) -/
+def ex1059 : List Tok :=
+  [.int 1000, .int 2, .int 0, .int 1, .int 100, .int 3] ++ biasToks true exBias1059
+
+example : ∀ chk : Bool,
+    (Builder.new.build ⟨chk⟩ Gen.messageTable Gen.sigTable_glo (.typed 1059 ex1059)).2.isOk = true := by
+  decide +kernel
+example : TokOK ex1059 := by intro t ht; revert t ht; decide
+
+/-- the clean-input predicate holds for it: every signal is in the 1059 table -/
+example : Clean 1059 ex1059 := by
+  unfold Clean
+  rw [if_pos rfl]
+  exact cleanDfs_of_takeFields _ hdr1059 ex1059 _ (biasToks true exBias1059) (by rfl)
+    (cleanBias_biasToks p1059 exBias1059 (by decide))
+
+/-- a 1230 message value: biases for 2P and 1C, listed out of mask order -/
+def exBias1230 : List Bias.Entry := [⟨0, 2, 80, 0x3FC00000⟩, ⟨0, 1, 67, 0xBFC00000⟩]
+def ex1230 : List Tok := [.int 7, .int 1] ++ biasToks false exBias1230
+
+example : ∀ chk : Bool,
+    (Builder.new.build ⟨chk⟩ Gen.messageTable Gen.sigTable_glo (.typed 1230 ex1230)).2.isOk = true := by
+  decide +kernel
+
+example : Clean 1230 ex1230 := by
+  unfold Clean
+  rw [if_neg (by decide), if_neg (by decide), if_pos rfl]
+  exact cleanDfs_of_takeFields _ hdr1230 ex1230 _ (biasToks false exBias1230) (by rfl)
+    (clean1230_biasToks exBias1230 (by decide) (by decide))
+
+/-- `Regroup` on the 1059 example: satellite 2 first, then the two entries of satellite 5 in their order -/
+example : C16.grouped p1059 id exBias1059 =
+    [⟨2, 2, 87, 0xBFC00000⟩, ⟨5, 1, 67, 0x3FC00000⟩, ⟨5, 2, 67, 0x3F000000⟩] := by decide +kernel
 
 end Rtcm.C01
